@@ -467,8 +467,8 @@ func (c *L3RouteResolver) onNodeUpdate(nodeName string, newNodeInfo *l3rrNodeInf
 					return // Don't know other node's CIDR so ignore for now.
 				}
 				otherNodesIPv4 := otherNodeInfo.V4Addr
-				wasSameSubnet := nodeExisted && oldNodeInfo.V4CIDR.ContainsV4(otherNodesIPv4)
-				nowSameSubnet := myNewNodeInfoKnown && myNewV4CIDR.ContainsV4(otherNodesIPv4)
+				wasSameSubnet := nodeExisted && oldNodeInfo.V4CIDR != (ip.V4CIDR{}) && oldNodeInfo.V4CIDR.ContainsV4(otherNodesIPv4)
+				nowSameSubnet := myNewNodeInfoKnown && myNewV4CIDR != (ip.V4CIDR{}) && myNewV4CIDR.ContainsV4(otherNodesIPv4)
 				if wasSameSubnet != nowSameSubnet {
 					logrus.WithField("route", r).Debug("Update to our subnet invalidated route")
 					c.trie.MarkCIDRDirty(r.dst)
@@ -486,8 +486,8 @@ func (c *L3RouteResolver) onNodeUpdate(nodeName string, newNodeInfo *l3rrNodeInf
 					return // Don't know other node's CIDR so ignore for now.
 				}
 				otherNodesIPv6 := otherNodeInfo.V6Addr
-				wasSameSubnet := nodeExisted && oldNodeInfo.V6CIDR.ContainsV6(otherNodesIPv6)
-				nowSameSubnet := myNewNodeInfoKnown && myNewV6CIDR.ContainsV6(otherNodesIPv6)
+				wasSameSubnet := nodeExisted && oldNodeInfo.V6CIDR != (ip.V6CIDR{}) && oldNodeInfo.V6CIDR.ContainsV6(otherNodesIPv6)
+				nowSameSubnet := myNewNodeInfoKnown && myNewV6CIDR != (ip.V6CIDR{}) && myNewV6CIDR.ContainsV6(otherNodesIPv6)
 				if wasSameSubnet != nowSameSubnet {
 					logrus.WithField("route", r).Debug("Update to our subnet invalidated route")
 					c.trie.MarkCIDRDirty(r.dst)
